@@ -320,8 +320,10 @@ def rdAtN (b : Bytes) (p : Nat) : (n : Nat) → Outcome (List Nat)
     | .err e => .err e
     | .panic s => .panic s
 
-/-- the hook's subtable reader: `inl (type, offset)` for an extension record, `inr pos` otherwise -/
-def srHook (b : Bytes) (extType tp p : Nat) : Outcome (Sum (Nat × Nat) Nat) :=
+/-- the subtable reader: `inl (type, offset)` for an extension record (lookup type `extType`,
+format 1, `readExtensionSubtable`), otherwise `inr` of what `leaf type position` decodes there -/
+def srWith {σ : Type} (leaf : Nat → Nat → Outcome σ) (b : Bytes) (extType tp p : Nat) :
+    Outcome (Sum (Nat × Nat) σ) :=
   if tp == extType then
     match rdAt b p with
     | .ok fmt =>
@@ -333,36 +335,48 @@ def srHook (b : Bytes) (extType tp p : Nat) : Outcome (Sum (Nat × Nat) Nat) :=
         | .panic s => .panic s
     | .err e => .err e
     | .panic s => .panic s
-  else .ok (.inr p)
+  else
+    match leaf tp p with
+    | .ok x => .ok (.inr x)
+    | .err e => .err e
+    | .panic s => .panic s
 
-def srAll (b : Bytes) (extType tp lp : Nat) : List Nat → Outcome (List (Sum (Nat × Nat) Nat))
+def srAll {σ : Type} (leaf : Nat → Nat → Outcome σ) (b : Bytes) (extType tp lp : Nat) :
+    List Nat → Outcome (List (Sum (Nat × Nat) σ))
   | [] => .ok []
   | o :: os =>
-    match srHook b extType tp (lp + o) with
+    match srWith leaf b extType tp (lp + o) with
     | .ok x =>
-      match srAll b extType tp lp os with
+      match srAll leaf b extType tp lp os with
       | .ok xs => .ok (x :: xs)
       | o' => o'
     | .err e => .err e
     | .panic s => .panic s
 
-/-- the second pass over an extension lookup: all records must be extension records of type `tp` -/
-def resolveExt (lp tp : Nat) : List Nat → List (Sum (Nat × Nat) Nat) → Outcome (List Nat)
+/-- the second pass over an extension lookup: every record must be an extension record of type
+`tp`; its target is then decoded -/
+def resolveExt {σ : Type} (leaf : Nat → Nat → Outcome σ) (lp tp : Nat) :
+    List Nat → List (Sum (Nat × Nat) σ) → Outcome (List σ)
   | o :: os, .inl (et, eo) :: xs =>
     if et != tp then .err eInvalid
-    else match resolveExt lp tp os xs with
-      | .ok r => .ok ((lp + o + eo) :: r)
-      | o' => o'
+    else match leaf tp (lp + o + eo) with
+      | .ok x =>
+        match resolveExt leaf lp tp os xs with
+        | .ok r => .ok (x :: r)
+        | o' => o'
+      | .err e => .err e
+      | .panic s => .panic s
   | _ :: _, .inr _ :: _ => .err eInvalid
   | _, _ => .ok []
 
-structure ReadLookup where
+structure ReadLookup (σ : Type) where
   type : Nat
   flags : Nat
   mfs : Nat
-  subPos : List Nat
+  subs : List σ
 
-def readLookups (b : Bytes) (extType : Nat) : List Nat → (numL numS : Nat) → Outcome (List ReadLookup)
+def readLookups {σ : Type} (leaf : Nat → Nat → Outcome σ) (b : Bytes) (extType : Nat) :
+    List Nat → (numL numS : Nat) → Outcome (List (ReadLookup σ))
   | [], _, _ => .ok []
   | lp :: lps, numL, numS =>
     match rdAtN b lp 3 with
@@ -373,13 +387,13 @@ def readLookups (b : Bytes) (extType : Nat) : List Nat → (numL numS : Nat) →
           let mfsR : Outcome Nat := if flags / 16 % 2 == 1 then rdAt b (lp + 6 + 2 * cnt) else .ok 0
           match mfsR with
           | .ok mfs =>
-            match srAll b extType tp lp offs with
+            match srAll leaf b extType tp lp offs with
             | .ok subs =>
-              let here : Outcome ReadLookup :=
+              let here : Outcome (ReadLookup σ) :=
                 match subs with
                 | .inl (et, _) :: _ =>
                   if et == tp then .err eInvalid
-                  else match resolveExt lp et offs subs with
+                  else match resolveExt leaf lp et offs subs with
                     | .ok ps => .ok ⟨et, flags, mfs, ps⟩
                     | .err e => .err e
                     | .panic s => .panic s
@@ -388,7 +402,7 @@ def readLookups (b : Bytes) (extType : Nat) : List Nat → (numL numS : Nat) →
                     | .inl _ => none⟩
               match here with
               | .ok l =>
-                match readLookups b extType lps (numL + 1) (numS + cnt) with
+                match readLookups leaf b extType lps (numL + 1) (numS + cnt) with
                 | .ok ls => .ok (l :: ls)
                 | o => o
               | .err e => .err e
@@ -403,14 +417,21 @@ def readLookups (b : Bytes) (extType : Nat) : List Nat → (numL numS : Nat) →
     | .err e => .err e
     | .panic s => .panic s
 
-def readLL (b : Bytes) (extType : Nat) : Outcome (List ReadLookup) :=
+/-- `readLookupList` on the bytes from the list position on, with `leaf type position` as the
+reader of non-extension subtables -/
+def readLLWith {σ : Type} (leaf : Nat → Nat → Outcome σ) (b : Bytes) (extType : Nat) :
+    Outcome (List (ReadLookup σ)) :=
   match rdAt b 0 with
   | .ok cnt =>
     match rdAtN b 2 cnt with
-    | .ok lps => readLookups b extType lps 0 0
+    | .ok lps => readLookups leaf b extType lps 0 0
     | .err e => .err e
     | .panic s => .panic s
   | .err e => .err e
   | .panic s => .panic s
+
+/-- with the verification hook's subtable reader: a subtable is the position it would be read from -/
+def readLL (b : Bytes) (extType : Nat) : Outcome (List (ReadLookup Nat)) :=
+  readLLWith (fun _ p => .ok p) b extType
 
 end SfntV.Otl.LL
